@@ -275,9 +275,20 @@ func ruleKeyReaders(c *core.Ctx) {
 				continue
 			}
 			o.At(fn.Site(rs, "returns a key"))
+			aliases := fn.FieldAliases()
 			ok := g.GuardedBy(r, func(a core.Atom) bool {
 				cmp, isCmp := a.AsCmp()
-				return isCmp && cmp.Op == token.NEQ && isKeyField(info, cmp.L) && core.IsNil(info, cmp.R)
+				if !isCmp || cmp.Op != token.NEQ || !core.IsNil(info, cmp.R) {
+					return false
+				}
+				l := cmp.L
+				if id, isID := ast.Unparen(l).(*ast.Ident); isID {
+					// fileKey := sec.key; if fileKey == nil
+					if rhs, isAlias := aliases[info.ObjectOf(id)]; isAlias {
+						l = rhs
+					}
+				}
+				return isKeyField(info, l)
 			})
 			o.Require(ok, "a key is returned without the sec.key != nil edge")
 		}
@@ -490,7 +501,8 @@ func ruleAuthOrder(c *core.Ctx) {
 					return isCmp && cmp.Op == token.EQL && core.IsNil(info, cmp.R) && core.ExprStr(cmp.L) == "err"
 				})
 				o.Require(okNil, "permissions are granted without err == nil")
-				val := core.ExprStr(rs.Results[0])
+				val := core.ExprStrAliased(fn, rs.Results[0])
+				val = strings.ReplaceAll(strings.ReplaceAll(val, "(sec.R)", "sec.R"), "(sec.P)", "sec.P")
 				if afterOwner && !afterUser {
 					o.Require(val == "PermAll", "owner access returns %s, want PermAll", val)
 				}
